@@ -32,6 +32,15 @@ exception is then caught in the same function, the statements after the handler 
 `inS0 body` (no try/with at all) implies `inS1 body`.
 
 `Agree G σ σ'`: equal effect logs and equal values of every non-generated variable.
+
+Outside the proved fragment by construction of the language: `Malt.Sem`'s `try` has no `else` clause (nor has its
+`for`/`while`), so `try … except … else …` is not covered by these theorems.  The passes' treatment of `Try.orelse`
+— since the repair of finding `C01-jump-in-try-body-with-else` the continue and return passes wrap the else clause
+in `if not <flag>:` when the protected block lexically contains an own `continue` / `return`
+(`_has_own_continue` / `_has_own_return`; break lowering turns `break` into `flag = True; continue` first) — is
+mirrored by the syntactic models (`Conv/Continue.lean`, `Conv/Return.lean`: `hasOwnContinueB`, `hasOwnReturnB`) and
+covered by the per-pass correspondence and the differential three-pass oracle on the try-else program family
+(`harness/c01_jumps.py`: `tryelse_programs`), not by a theorem.
 -/
 namespace Malt.Props.C01Jumps
 open Malt.Sem Malt.Sem.Jumps
